@@ -1,2 +1,4 @@
 import AmiscProps.C01
 import AmiscProps.C02
+import AmiscProps.C05
+import AmiscProps.C18
